@@ -204,14 +204,21 @@ Inductive impl_out :=
 (* vs = the variables X1..Xn of the pair followed by the witness variable W *)
 Definition model_bindings (s : subst) (vs : list N) : list term := map (fun v => apply s (Var v)) vs.
 
+(* the three comparisons, over the two verdicts of the model (computed once per pair) *)
+Definition chk_bind (oc : option subst) (vs : list N) (o : impl_out) : option bool :=
+  match oc with
+  | Some s => Some match o with
+                   | IOkBind same bs => same && variant_lists (model_bindings s vs) bs
+                   | _ => false
+                   end
+  | None => None
+  end.
+
 (* = with occurs_check=false: rational-tree unification *)
-Definition check_rt (a b : term) (vs : list N) (o : impl_out) : bool :=
-  match unify_oc a b with
-  | Some s => match o with
-              | IOkBind same bs => same && variant_lists (model_bindings s vs) bs
-              | _ => false
-              end
-  | None => match unify_rt a b with
+Definition chk_rt (oc : option subst) (rt : option bool) (vs : list N) (o : impl_out) : bool :=
+  match chk_bind oc vs o with
+  | Some r => r
+  | None => match rt with
             | Some true => match o with IOkCyclic same => same | _ => false end
             | Some false => match o with IFail => true | _ => false end
             | None => false
@@ -219,35 +226,40 @@ Definition check_rt (a b : term) (vs : list N) (o : impl_out) : bool :=
   end.
 
 (* unify_with_occurs_check/2 and = with occurs_check=true: finite unification *)
-Definition check_oc (a b : term) (vs : list N) (o : impl_out) : bool :=
-  match unify_oc a b with
-  | Some s => match o with
-              | IOkBind same bs => same && variant_lists (model_bindings s vs) bs
-              | _ => false
-              end
+Definition chk_oc (oc : option subst) (vs : list N) (o : impl_out) : bool :=
+  match chk_bind oc vs o with
+  | Some r => r
   | None => match o with IFail => true | _ => false end
   end.
 
 (* = with occurs_check=error: as finite unification, but when the terms are unifiable only as rational
-   trees (every processing order must attempt a cyclic binding) the documented error is raised; when
-   they are not unifiable at all, failure and the error are both allowed (which comes first depends
-   on the processing order, which the property does not fix). *)
-Definition check_err (a b : term) (vs : list N) (o : impl_out) : bool :=
-  match unify_oc a b with
-  | Some s => match o with
-              | IOkBind same bs => same && variant_lists (model_bindings s vs) bs
-              | _ => false
-              end
-  | None => match unify_rt a b with
+   trees (every processing order must attempt a cyclic binding; "a unification is performed that the
+   occurs check would have prevented") the error is raised; when they are not unifiable at all,
+   failure and the error are both allowed (which comes first depends on the processing order, which
+   the property does not fix). *)
+Definition chk_err (oc : option subst) (rt : option bool) (vs : list N) (o : impl_out) : bool :=
+  match chk_bind oc vs o with
+  | Some r => r
+  | None => match rt with
             | Some true => match o with IOccursError => true | _ => false end
             | Some false => match o with IFail | IOccursError => true | _ => false end
             | None => false
             end
   end.
 
-(* monomorphic list constructors: the generated correspondence cases are elaborated much faster
-   without polymorphic list notations *)
-Definition tn : list term := [].
-Definition tc (x : term) (l : list term) : list term := x :: l.
-Definition nn : list N := [].
-Definition nc (x : N) (l : list N) : list N := x :: l.
+Definition check_rt (a b : term) (vs : list N) (o : impl_out) : bool := chk_rt (unify_oc a b) (unify_rt a b) vs o.
+Definition check_oc (a b : term) (vs : list N) (o : impl_out) : bool := chk_oc (unify_oc a b) vs o.
+Definition check_err (a b : term) (vs : list N) (o : impl_out) : bool := chk_err (unify_oc a b) (unify_rt a b) vs o.
+
+(* all observations of one pair at once *)
+Definition check_pair (a b : term) (vs : list N) (rts ocs errs : list impl_out) : bool :=
+  let oc := unify_oc a b in
+  let rt := unify_rt a b in
+  forallb (chk_rt oc rt vs) rts && forallb (chk_oc oc vs) ocs && forallb (chk_err oc rt vs) errs.
+
+(* 0 = finite unifier, 1 = unifiable as rational trees only, 2 = not unifiable, 3 = rational-tree model out of fuel *)
+Definition verdict (a b : term) : N :=
+  match unify_oc a b with
+  | Some _ => 0%N
+  | None => match unify_rt a b with Some true => 1%N | Some false => 2%N | None => 3%N end
+  end.
